@@ -158,9 +158,21 @@ class Prov:
     # ---- ops
     def run(self, op):
         try:
-            return getattr(self, "op_" + op[0])(*op[1:])
+            return self.canon(getattr(self, "op_" + op[0])(*op[1:]))
         except Exception as e:       # a Python-level crash inside the library is a refusal of that kind
             return ["exc", type(e).__name__]
+
+    def canon(self, x):
+        """random identifiers of dynamically registered clients -> their index"""
+        if isinstance(x, dict):
+            return {k: self.canon(v) for k, v in x.items()}
+        if isinstance(x, (list, tuple)):
+            return [self.canon(v) for v in x]
+        if isinstance(x, str):
+            for i, d in enumerate(self.dyn):
+                if x == d["client_id"]:
+                    return "<dyn %d>" % i
+        return x
 
     def op_tick(self, d):
         self.clock.tick(d)
